@@ -102,6 +102,7 @@ type ReplayFile struct {
 	Path     string    `json:"path,omitempty"`
 	Note     string    `json:"note,omitempty"`
 	Unshrunk *[]uint32 `json:"unshrunk_tape,omitempty"`
+	World    string    `json:"world,omitempty"` // the simulated world (harness package) that produced it
 }
 
 func envInt(name string, def int64) int64 {
@@ -272,6 +273,11 @@ func Main(t *testing.T, p *Property) {
 		Probes: map[string]int64{}, Rule: p.Rule, Assumptions: p.Assumptions, Components: p.Components}
 	start := time.Now()
 	writeRes := func() {
+		for i := range res.Violations {
+			if res.Violations[i].World == "" {
+				res.Violations[i].World = os.Getenv("VERIF_WORLD")
+			}
+		}
 		res.WallS = time.Since(start).Seconds()
 		b, _ := json.MarshalIndent(res, "", " ")
 		_ = os.WriteFile(out, b, 0o644)
